@@ -101,7 +101,11 @@ Definition outs_consistent (t : txs) : Prop :=
 (** the fee of a transfer is what was sent minus what arrived (established by the constructor) *)
 Definition intras_consistent (t : txs) : Prop :=
   forall a, In a (t_intras t) -> x_crypto_fee a = x_crypto_sent a - x_crypto_received a.
-(** finding F8: a transfer fee whose fiat value vanishes at 13 decimals is not taxed; excluded here *)
+(** a transfer fee is never negative (established by the constructor: crypto_sent >= crypto_received) *)
+Definition fees_nonneg (t : txs) : Prop := forall a, In a (t_intras t) -> 0 <= x_crypto_fee a.
+(** every transfer with a non-zero fee is a taxable event, so the matcher takes the fee from a lot.  Under the rule before
+    the repair of finding F8 (fiat value of the fee > 0 at 13 decimals) this failed for dust fees; under the rule of the
+    source as it is now it follows from [fees_nonneg] (Proofs/TransferFee.v: [no_dust_fee_of_nonneg], [built_no_dust_fee]) *)
 Definition no_dust_fee (t : txs) : Prop :=
   forall a, In a (t_intras t) -> x_crypto_fee a <> 0 -> intra_is_taxable a = true.
 (** no to-date cut: every transaction is dated up to to_day *)
